@@ -111,7 +111,13 @@ def pevs(log, src=None):
         src.append(k)
     while i < len(log):
         e = log[i]
-        if e[1] == 'sched_req':
+        if e[1] == 'sched_call':
+            emit('ESchedCall %s %s' % (q(e[2]), q(e[3])), i)
+            i += 1
+        elif e[1] == 'sched_nobase':
+            raise ValueError('sched(%s/%s, ...) issued by a non-clock thread reached the queue without reading the main '
+                             "thread's time under the lock (its time base is not the physical present)" % tuple(e[2]))
+        elif e[1] == 'sched_req':
             # sched(d) entered by a non-clock thread; the next event is the time base read by sched
             if i + 1 >= len(log) or log[i + 1][1] != 'base':
                 raise ValueError('sched(delta) from a non-clock thread did not read the time: %r' % (log[i:i + 3],))
@@ -429,6 +435,20 @@ def gen_self_stop(idx):
             'final': 'drain', 'horizon': 0.5, 'expect_dead': True, 'expect_counts': {'1': 1, '2': 0, '3': 0}}
 
 
+def gen_sched_during_routine(kind, where, idx):
+    """scheduling calls from a second thread while a clock thread is INSIDE a Routine wake-up (main.current_tt is that
+    routine, process-global; slow body of 200 ms): sched(1/4) issued 70 ms after the routine began, by a helper thread
+    and by the main thread, on clock `kind`; the routine runs on the same clock or on another one (`where`).  Lower
+    bound against the physical time read before the call: awake - call >= 1/4 - eps."""
+    first = {'sys': ['xsched', 1, 1, 64], 'aux': ['asched', 1, 1, 64], 'same': ['sched', 1, 1, 64]}[where]
+    return {'name': '%s-sched-during-routine-on-%s' % (kind, where), 'clock': kind, 'index': idx, 'tempo': [1, 1],
+            'aux_marker': 'aux' if where == 'aux' else '',
+            'tasks': {'1': {'routine': 1, 'slow': 200}, '2': {'results': [['none']]}, '3': {'results': [['none']]}},
+            'threads': [[first, ['sleep', 70], ['sched', 2, 1, 4]]],
+            'main_ops': [['sched', 3, 1, 4]],
+            'final': 'clear', 'wait_counts': {'2': 1, '3': 1}, 'before_final': 4.0, 'after_final': 0.05, 'lower_bound': True}
+
+
 def gen_cancel_via(kind, via, idx):
     """clear() issued from a task of another clock: nothing that was pending may run after it returned"""
     return {'name': '%s-clear-from-%s' % (kind, via), 'clock': kind, 'index': idx, 'tempo': [2, 1],
@@ -462,6 +482,8 @@ def gen_stress(rng, kind, idx, heavy=False):
                 ops.append(['xsched', rng.randint(1, ntasks), 1, 64])
             nested.append(ops)
         tasks[str(tid)] = {'results': results, 'nested': nested}
+        if rng.random() < 0.15:
+            tasks[str(tid)] = {'routine': rng.randint(0, 2), 'yield': [rng.randint(0, 2), 64], 'slow': rng.choice([0, 20, 60])}
     threads = []
     for _ in range(nthreads):
         ops = []
@@ -597,6 +619,9 @@ def program(ctx, rng):
         for _ in range(ctx.n(2, 8)):
             idx += 1
             p1.append(gen_drain_batch(rng, kind, idx))
+    for kind, where in (('tempo', 'sys'), ('tempo', 'aux'), ('tempo', 'same'), ('sys', 'aux'), ('sys', 'same')):
+        idx += 1
+        p1.append(gen_sched_during_routine(kind, where, idx))
     idx += 1
     p1.append(gen_self_stop(idx))
     idx += 1
@@ -960,6 +985,9 @@ def search(ctx, failures):
     scs.append(gen_tempo_ahead(idx))
     cross, idx = gen_cross_all(idx, nolock=True)
     scs.extend(cross)
+    for kind, where in (('tempo', 'sys'), ('tempo', 'aux'), ('tempo', 'same'), ('sys', 'aux'), ('sys', 'same')):
+        idx += 1
+        scs.append(gen_sched_during_routine(kind, where, idx))
     for kind in ('sys', 'tempo', 'app'):
         for how in ('raise', 'routine', 'stop'):
             idx += 1
